@@ -610,6 +610,11 @@ func genLPP(t *rapid.T) NumCase {
 		b = 10
 	}
 	n := rapid.IntRange(1, 40).Draw(t, "ndigits")
+	if rapid.IntRange(0, 15).Draw(t, "longdigits") == 8 {
+		// integers far beyond 512 bits: a 2048-bit modulus in hex, 200 decimal
+		// digits, 600 binary digits (parseint keeps every digit)
+		n = rapid.SampledFrom([]int{90, 130, 160, 200, 520, 600}).Draw(t, "nlong")
+	}
 	var sb strings.Builder
 	switch rapid.IntRange(0, 5).Draw(t, "sign") {
 	case 0, 1:
